@@ -447,6 +447,18 @@ func ruleR23(c *Ctx) *RuleResult {
 				if a.Op == "==" && strings.Contains(s, "(fa:value ") && strings.Contains(s, item) {
 					found = true
 				}
+				// the member's node looked up in the inner tree: nil ⇔ not a member
+				if (a.Op == "==" || a.Op == "!=") && len(a.Args) == 2 {
+					for i := 0; i < 2; i++ {
+						if n := a.Args[1-i]; a.Args[i].String() == "#:nil" && n.Op == "call" && (strings.HasSuffix(n.Leaf, ").GetNode") || strings.HasSuffix(n.Leaf, ").lookup")) && strings.HasSuffix(noEpoch(n), item+")") {
+							if a.Op == "==" {
+								missed = true
+							} else {
+								found = true
+							}
+						}
+					}
+				}
 				// the whole chain was searched, or the container is empty
 				if a.Op == "==" && a.Args[0].String() == "#:nil" && a.Args[1].Op == "φ" {
 					missed = true
